@@ -25,6 +25,12 @@ RULE = ("simulated genuine devices (fresh issuer / device / attestation / wallet
         "device answers (signed bytes, signatures, hashes, keys, certificates) or of the root of "
         "trust must make gathering or verification raise. distinct = (platform, framing, page "
         "size class, alteration); non-trivial = all")
+RULE_ADDED = (
+              'Also: UD sources with 0x prefix, leading zero nibbles, text that continues or spells '
+              "a message header, status-word-like tails; half of the flows through the tools' own "
+              'command lines; bit flips biased to the ends of a datum; encoding-only DER flips '
+              'redrawn ')
+RULE = RULE + " " + RULE_ADDED.strip()
 ASSUMPTIONS = [
     "the genuine-device models in pv/simdev/genuine.py (endorsement scheme two: signatures by "
     "attestation key + HMAC(app hash, attestation public key)) are trusted",
